@@ -28,7 +28,7 @@ for f in sys.argv[1:]:
                      'first_result': prev.get('first_result', {'check_violations': int(nv), 'check_exit': ex})}
 for key, r in sorted(rows.items()):
     pid, n = key.split('-')
-    src = next((f'{b}/{pid}/_seed/{n}' for b in ('/tmp/wt', '/tmp/wt2', '/tmp/wt3', '/tmp/wt4', '/tmp/wt5') if os.path.isdir(f'{b}/{pid}/_seed/{n}')), '/nonexistent')
+    src = next((f'{b}/{pid}/_seed/{n}' for b in ('/tmp/wt', '/tmp/wt2', '/tmp/wt3', '/tmp/wt4', '/tmp/wt5', '/tmp/wt6') if os.path.isdir(f'{b}/{pid}/_seed/{n}')), '/nonexistent')
     dst = os.path.join(V, 'seeded', key)
     if not os.path.isdir(src) and os.path.isdir(dst):
         try:
